@@ -1969,9 +1969,36 @@ func vfFamBGenForeign(r *rapid.T, dirFocus bool) vfFamBFCase {
 	}
 	nInit := rapid.IntRange(1, 3).Draw(r, "nInitial")
 	nLater := rapid.IntRange(0, 3).Draw(r, "nLater")
+	// browser layout: numeric mids, data section last (highest mid) among the initial sections,
+	// offered with port 0 (bundle-only or rejected); the local side then adds something and offers
+	browser := !dirFocus && rapid.IntRange(0, 3).Draw(r, "browserLayout") == 0
+	if browser {
+		styles = []string{"numeric"}
+		nInit = rapid.IntRange(2, 3).Draw(r, "nInitialBrowser")
+	}
 	all := vfFamBGenSDP(r, vfFamBGenOpts{MinSec: nInit + nLater, MaxSec: nInit + nLater, Medias: medias, MidStyles: styles,
 		NoPlanBMids: c.Sem == 1, RemapPT: true, RemapExt: true, Unsupported: 10, SSRC: true, AbsentDir: false})
-	if !dirFocus {
+	if browser {
+		last := &all.Sections[nInit-1]
+		for k := range all.Sections {
+			if all.Sections[k].Media == "application" && k != nInit-1 {
+				all.Sections[k].Media = "audio"
+				all.Sections[k].Dir = "sendrecv"
+				all.Sections[k].Codecs = []vfFamBCodec{{PT: 8, Name: "PCMA", Clock: 8000}}
+			}
+		}
+		last.Media, last.Dir, last.Codecs, last.Exts, last.SSRC = "application", "", nil, nil, 0
+		switch rapid.IntRange(0, 2).Draw(r, "browserShape") {
+		case 0:
+			for k := 1; k < len(all.Sections); k++ {
+				all.Sections[k].BundleOnly = true
+			}
+		case 1:
+			last.BundleOnly = true
+		default:
+			last.Port = 0
+		}
+	} else if !dirFocus {
 		// port-zero shapes a sound remote produces: Chrome max-bundle (everything behind the first
 		// section bundle-only), single bundle-only sections, a rejected section (also last / with
 		// the highest mid)
@@ -2017,6 +2044,12 @@ func vfFamBGenForeign(r *rapid.T, dirFocus bool) vfFamBFCase {
 	}
 	for i := 0; i < n; i++ {
 		st := vfFamBFStep{Op: rapid.SampledFrom(ops).Draw(r, "op")}
+		if browser && i == 0 {
+			st.Op = rapid.SampledFrom([]string{"addKind", "addTrack", "addKind", "dc"}).Draw(r, "browserFirst")
+		}
+		if browser && i == 1 {
+			st.Op = "localOffer"
+		}
 		switch st.Op {
 		case "remoteOffer":
 			if len(later) > 0 && rapid.IntRange(0, 1).Draw(r, "remoteAdds") == 0 {
